@@ -375,12 +375,16 @@ func (f *Font) Destroy() {
 	}
 }
 
-func (f *Font) SetScale(x, y int32)   { C.hb_font_set_scale(f.p, C.int(x), C.int(y)) }
-func (f *Font) SetPpem(x, y uint16)   { C.hb_font_set_ppem(f.p, C.uint(x), C.uint(y)) }
-func (f *Font) SetPtem(ptem float32)  { C.hb_font_set_ptem(f.p, C.float(ptem)) }
-func (f *Font) Face() *Face           { return f.face }
-func (f *Font) HAdvance(g uint32) int32 { return int32(C.hb_font_get_glyph_h_advance(f.p, C.hb_codepoint_t(g))) }
-func (f *Font) VAdvance(g uint32) int32 { return int32(C.hb_font_get_glyph_v_advance(f.p, C.hb_codepoint_t(g))) }
+func (f *Font) SetScale(x, y int32)  { C.hb_font_set_scale(f.p, C.int(x), C.int(y)) }
+func (f *Font) SetPpem(x, y uint16)  { C.hb_font_set_ppem(f.p, C.uint(x), C.uint(y)) }
+func (f *Font) SetPtem(ptem float32) { C.hb_font_set_ptem(f.p, C.float(ptem)) }
+func (f *Font) Face() *Face          { return f.face }
+func (f *Font) HAdvance(g uint32) int32 {
+	return int32(C.hb_font_get_glyph_h_advance(f.p, C.hb_codepoint_t(g)))
+}
+func (f *Font) VAdvance(g uint32) int32 {
+	return int32(C.hb_font_get_glyph_v_advance(f.p, C.hb_codepoint_t(g)))
+}
 
 // SetVariations calls hb_font_set_variations (an empty list resets to the
 // default instance).
